@@ -874,7 +874,11 @@ func (it *Interp) noteWrite(fr *frame, p Ptr) {
 		return
 	}
 	if p.obj.frozen {
-		it.event(fr, "write-to-frozen", p.obj.what)
+		fn := "?"
+		if fr != nil {
+			fn = fr.cf.fn.Name()
+		}
+		it.event(fr, "write-to-frozen/in-"+fn, p.obj.what)
 	}
 	if p.obj.epoch < it.epoch && !it.inInit {
 		it.journal = append(it.journal, journalEntry{cell: p.cell, old: *p.cell})
